@@ -10,7 +10,9 @@ svdriver_c17: line protocol for the C17 model (SV/Model/FuseMgr.lean).
   close
   restart
 Every op answers
-  <ok|err|panic> st=<wait|ready|notready> cur=<fs|-> cfg=<n|-> calls=<..> store=<mp:lab:cfg,..> fsmap=<mp:fs,..> live=<fs:mp,..>
+  <ok|err|panic> st=<wait|ready|notready> calls=<..> store=<mp:lab:cfg,..> fsmap=<mp:fs,..|?> live=<fs:mp,..>
+(fsmap is `?` unless the status is ready: the harness observes it through Check probes; curFs and
+the current config are not printed, they show in the calls and records of later operations)
 with calls in call order (F<cfg>:<r> configFunc, N<fs>:<cfg> constructed, NX<cfg> construction
 failed, M<fs>:<mp>:<lab>:<r>, C<fs>:<mp>:<lab>:<r>, U<fs>:<mp>:<r>), store and fsmap in key order,
 live sorted.
@@ -30,10 +32,6 @@ def showCall : Call → String
 
 def showList (l : List String) : String := if l.isEmpty then "-" else ",".intercalate l
 
-def showOpt : Option Nat → String
-  | none => "-"
-  | some n => toString n
-
 def pairLe (a b : Nat × Nat) : Bool := a.1 < b.1 || (a.1 == b.1 && a.2 ≤ b.2)
 
 def insertPair (x : Nat × Nat) : List (Nat × Nat) → List (Nat × Nat)
@@ -48,9 +46,10 @@ def showOut (o : Out) : String :=
   let st := match o.st.status with
     | .waitInit => "wait" | .ready => "ready" | .notReady => "notready"
   let store := showList (o.st.store.map fun e => s!"{e.1}:{e.2.labels}:{e.2.cfg}")
-  let fsmap := showList (o.st.fsMap.map fun e => s!"{e.1}:{e.2}")
+  -- what the manager serves is observable (through Check probes) only while it accepts requests
+  let fsmap := if o.st.status == .ready then showList (o.st.fsMap.map fun e => s!"{e.1}:{e.2}") else "?"
   let live := showList ((sortPairs o.st.live).map fun e => s!"{e.1}:{e.2}")
-  s!"{r} st={st} cur={showOpt o.st.curFs} cfg={showOpt o.st.cfg} calls={showList (o.calls.map showCall)} store={store} fsmap={fsmap} live={live}"
+  s!"{r} st={st} calls={showList (o.calls.map showCall)} store={store} fsmap={fsmap} live={live}"
 
 def parseOk? : String → Option Bool
   | "ok" => some true
